@@ -8,6 +8,11 @@ from .printer import close
 TOL = 1e-6
 
 
+def tol(it):
+    """1e-6 mm plus 9 ulp of the largest coordinate magnitude seen so far (only matters for the numeric stress programs)."""
+    return TOL + 2e-15 * getattr(it, "scale", 0.0)
+
+
 def F(tag, it, msg):
     return {"tag": tag, "at": it.idx, "msg": "item %d %r: %s" % (it.idx, it.item[1:], msg)}
 
@@ -66,7 +71,7 @@ def c03(tr):
         pf = last_snap(it)
         pu = it.u_after
         for ax, name in ((X, "X"), (Y, "Y"), (Z, "Z")):
-            if not close(pf[ax], pu[ax], TOL):
+            if not close(pf[ax], pu[ax], tol(it)):
                 out.append(F("c03_position", it, "after leaving/being outside every region the printer %s is %r, the file is at %r" % (name, pf[ax], pu[ax])))
         if pf[ABS] != pu[ABS]:
             out.append(F("c03_mode", it, "printer positioning mode absolute=%r, file selected absolute=%r" % (pf[ABS], pu[ABS])))
@@ -77,7 +82,7 @@ def c03(tr):
             prev = it.f_before
             for cmd, (_step, snap) in zip(it.out, it.f_steps):
                 if prev[X] != snap[X] or prev[Y] != snap[Y]:
-                    if not close(prev[Z], zhi, TOL) or not close(snap[Z], zhi, TOL):
+                    if not close(prev[Z], zhi, tol(it)) or not close(snap[Z], zhi, tol(it)):
                         out.append(F("c03_z_order", it, "re-positioning %r travels in XY at Z %r->%r, expected the higher of previous Z %r and target Z %r" % (cmd, prev[Z], snap[Z], it.f_before[Z], pu[Z])))
                 prev = snap
     return out
@@ -93,21 +98,21 @@ def c04(tr):
             k = it.out.index(it.cmd)
             before = it.f_steps[k - 1][1] if k > 0 else it.f_before
             after = it.f_steps[k][1]
-            if not close(before[E], it.u_before[E], TOL):
+            if not close(before[E], it.u_before[E], tol(it)):
                 out.append(F("c04_e_coordinate", it, "printer E is %r before the forwarded command, the file assumes %r" % (before[E], it.u_before[E])))
             pushed = after[FIL] - before[FIL]
-            if not close(pushed, it.u_step.dfil, TOL):
+            if not close(pushed, it.u_step.dfil, tol(it)):
                 out.append(F("c04_amount", it, "forwarded command pushes %r mm of filament, the file specifies %r" % (pushed, it.u_step.dfil)))
         if it.kind == "g" and not it.open_before and not it.opening:
             # deposited plastic (advance of the filament high-water mark) outside an episode equals the file's:
             # an owed recovery may precede the command, but nothing may be extruded on top of it
             dep_f = last_snap(it)[HWM] - it.f_before[HWM]
             dep_u = it.u_after[HWM] - it.u_before[HWM]
-            if not close(dep_f, dep_u, TOL):
+            if not close(dep_f, dep_u, tol(it)):
                 out.append(F("c04_deposit", it, "forwarded commands deposit %r mm of filament outside a region, the file deposits %r" % (dep_f, dep_u)))
         if not it.open_after and it.kind in ("g", "at"):
             pf = last_snap(it)
-            if not close(pf[E], it.u_after[E], TOL):
+            if not close(pf[E], it.u_after[E], tol(it)):
                 out.append(F("c04_e_outside", it, "outside every region the printer E is %r, the file assumes %r" % (pf[E], it.u_after[E])))
         if in_window(it):
             prev = it.f_before
